@@ -580,7 +580,7 @@ impl Check for Monitoring {
 
     fn info(&self) -> CheckInfo {
         CheckInfo {
-            rule: "1-3 real sessions (eBGP / iBGP, optional add-path in either direction, optional graceful restart, extended messages, optionally an IPv6 transport peer) announcing and withdrawing IPv4 / IPv6 prefixes with several path ids, dropping by FIN, RST, NOTIFICATION or operator reset and coming back, End-of-RIB, routes originated and deleted by the operator, waits across the restart timer and the BMP reconnect delay; 1-2 BMP stations (policy pre / post / both / local / all) added and deleted through the gRPC handlers at arbitrary points, also inside bursts of updates that are not allowed to settle; the station connection has seeded latency, fragmentation and a small window, and the station may stall (stop reading), close or reset. At each quiescent point a station that has caught up is compared with the RIB. non-trivial = a caught-up station was compared for at least one peer with routes; distinct = transport event signature".into(),
+            rule: "1-3 real sessions (eBGP / iBGP, optional add-path in either direction, optional graceful restart, extended messages, optionally an IPv6 transport peer) announcing and withdrawing IPv4 / IPv6 prefixes with several path ids, dropping by FIN, RST, NOTIFICATION or operator reset and coming back, End-of-RIB, routes originated and deleted by the operator, waits across the restart timer and the BMP reconnect delay; 1-2 BMP stations (policy pre / post / both / local / all) added and deleted through the gRPC handlers at arbitrary points, also inside bursts of updates that are not allowed to settle; in half of the runs a task that has just acquired the daemon's global lock yields once with a seeded probability (10% or 40%), which lets other tasks run where the multi-threaded runtime would let them run on another core; the station connection has seeded latency, fragmentation and a small window, and the station may stall (stop reading), close or reset. At each quiescent point a station that has caught up is compared with the RIB. non-trivial = a caught-up station was compared for at least one peer with routes; distinct = transport event signature".into(),
             components_real: vec![
                 "BmpClient::{try_connect, serve} with its subscription, fold_snapshot_event, flush_peer_snapshot, live loop, track_peer_up/down; GrpcService::{add_bmp, delete_bmp}".into(),
                 "packet::bmp::BmpCodec / PerPeerHeader / PeerDownReason and the embedded bgp::PeerCodec".into(),
